@@ -599,6 +599,7 @@ func (ex *Exec) unop(in *ssa.UnOp, r Term) {
 		ex.set(in, x)
 	case token.ARROW:
 		c.dropped["channel receive: havocked value"] = true
+		ex.recvJustified(in, r)
 		v := c.freshVal(in.Type(), ex.nm(in.Name()))
 		v.Typ = in.Type()
 		ex.vals[in] = v
@@ -678,7 +679,44 @@ func (ex *Exec) convert(x Val, from, to types.Type, in ssa.Instruction, r Term) 
 		x.Typ = to
 		return x
 	}
-	_ = fu
+	// Rune conversions decode / encode UTF-8, which is not modelled: the
+	// result is a fresh value constrained only by the length bounds that hold
+	// for every input (one rune per 1..4 bytes; one invalid byte is one rune).
+	isRune := func(t types.Type) bool {
+		b, ok := t.Underlying().(*types.Basic)
+		return ok && b.Kind() == types.Int32
+	}
+	hint := "conv"
+	if v, ok := in.(ssa.Value); ok {
+		hint = ex.nm(v.Name())
+	}
+	if ts, ok := tu.(*types.Slice); ok && isRune(ts.Elem()) && x.K == KSlice {
+		c.trusted["A-UTF8: string -> []rune conversion is not decoded: fresh slice with floor(len(s)/4) <= len <= len(s)"] = true
+		res := c.freshVal(to, hint)
+		res.Typ = to
+		c.assume(imp(r, and(ex.v.wfAssume(c, res),
+			app("bvsle", res.Len, x.Len), app("bvsle", app("bvsdiv", x.Len, bvLit(64, 4)), res.Len),
+			imp(app("bvsgt", x.Len, bvLit(64, 0)), app("bvsgt", res.Len, bvLit(64, 0))))))
+		return res
+	}
+	if tb, ok := tu.(*types.Basic); ok && tb.Info()&types.IsString != 0 {
+		if fs, ok := fu.(*types.Slice); ok && isRune(fs.Elem()) && x.K == KSlice {
+			c.trusted["A-UTF8: []rune -> string conversion is not encoded: fresh string with len(r) <= len <= 4*len(r)"] = true
+			res := c.freshVal(to, hint)
+			res.Typ = to
+			c.assume(imp(r, and(ex.v.wfAssume(c, res),
+				app("bvsle", x.Len, res.Len), app("bvsle", app("bvsdiv", res.Len, bvLit(64, 4)), x.Len))))
+			return res
+		}
+		if x.K == KBV {
+			c.trusted["A-UTF8: integer -> string conversion is not encoded: fresh string with 1 <= len <= 4"] = true
+			res := c.freshVal(to, hint)
+			res.Typ = to
+			c.assume(imp(r, and(ex.v.wfAssume(c, res),
+				app("bvsle", bvLit(64, 1), res.Len), app("bvsle", res.Len, bvLit(64, 4)))))
+			return res
+		}
+	}
 	unsup("conversion %s -> %s", from, to)
 	return Val{}
 }
@@ -1008,4 +1046,68 @@ func calleeName(cc *ssa.CallCommon) string {
 		return "builtin " + b.Name()
 	}
 	return "dynamic " + cc.Value.Name()
+}
+
+// recvJustified: blocking discipline. In a function whose contract has `recv`
+// clauses, every channel receive must carry one, and the clause must hold in
+// the state in which the receive blocks. Receives are numbered in source order.
+func (ex *Exec) recvJustified(in *ssa.UnOp, r Term) {
+	if ex != ex.top || ex.fc == nil {
+		return
+	}
+	has := false
+	for _, ca := range ex.fc.CallAsserts {
+		if ca.Callee == "<-" {
+			has = true
+		}
+	}
+	if !has {
+		return
+	}
+	var recvs []*ssa.UnOp
+	for _, b := range in.Parent().Blocks {
+		for _, i := range b.Instrs {
+			if u, ok := i.(*ssa.UnOp); ok && u.Op == token.ARROW {
+				recvs = append(recvs, u)
+			}
+		}
+	}
+	sort.SliceStable(recvs, func(i, j int) bool { return recvs[i].Pos() < recvs[j].Pos() })
+	k := -1
+	for i, u := range recvs {
+		if u == in {
+			k = i
+		}
+	}
+	for ci, ca := range ex.fc.CallAsserts {
+		if ca.Callee != "<-" || ca.Ordinal != k {
+			continue
+		}
+		env := ex.baseEnv(ex.cur)
+		ex.bindDominating(env, in)
+		for n, nv := range ex.named {
+			if _, clash := env.vars[n]; !clash {
+				env.vars[n] = nv
+			}
+		}
+		t, err := env.Goal(ca.C.E)
+		txt := ca.C.Text
+		if err != nil {
+			if !strings.Contains(err.Error(), "unknown identifier") {
+				unsup("recv %d assert: %v", k, err)
+			}
+			t = "false"
+			txt += "   [cannot be evaluated here: " + err.Error() + "]"
+		}
+		lbl := ca.C.Label
+		if lbl == "" {
+			lbl = fmt.Sprintf("c%d", ci)
+		}
+		ex.addObl("assert", lbl, r, t, in.Pos(), txt, false)
+		ex.assertSeen[fmt.Sprintf("%d %s", ca.Ordinal, ca.Callee)] = true
+		ex.c.trusted["A-CHAN-PROTOCOL: where its `recv` clause holds, a channel receive in "+ex.fname+" is answered (the sender has sent or will send): "+ca.C.Text] = true
+		return
+	}
+	ex.addObl("assert", fmt.Sprintf("recv%d", k), r, "false", in.Pos(),
+		fmt.Sprintf("blocking receive %d has no `recv` clause: nothing shows that its sender will send (the function justifies its other receives)", k), false)
 }
